@@ -20,6 +20,7 @@ CONSTANTS
   WithB = TRUE
   AllOrders = TRUE
   RestartIters = {1}
+  MaxLeg = 9
 INVARIANT TypeOK
 INVARIANT NoError
 INVARIANT WeightOne
